@@ -211,7 +211,7 @@ func runC01(c *explore.Ctx) {
 	var idx int64
 	for _, n := range sizes {
 		for p := 0; p < gen.NLargePatterns; p++ {
-			for pay := 0; pay < 2; pay++ {
+			for pay := 0; pay < 3; pay++ {
 				for _, m := range largeModes {
 					scope := "LARGE"
 					if c.MineIdx(scope, idx) && !c.Expired() {
